@@ -6,7 +6,7 @@ use crate::registry::{entries, Made};
 pub fn run(ctx: &Ctx) -> Report {
     let mut rep = Report::new("roundtrip");
     let es = entries();
-    let nkeys = ctx.budget(60, 4000, 2);
+    let nkeys = ctx.budget(300, 4000, 2);
     for e in es.iter().filter(|e| ctx.wants(e)) {
         let id = e.id();
         let mut rng = ctx.rng(&format!("roundtrip:{}", id));
@@ -42,18 +42,16 @@ pub fn run(ctx: &Ctx) -> Report {
                 let x = gen::gen(&mut rng, bs, bc);
                 note_classes(&mut rep, kc, bc);
                 let random = gen::class_is_random(kc) || (gen::class_is_random(bc) && bs >= 8);
-                let mut c = x.clone();
-                inst.enc1(&mut c);
-                let mut back = c.clone();
-                inst.dec1(&mut back);
+                // call shapes rotate: in place, b2b and in/out over separate buffers, backend direct
+                let sh = |k: u64| [(Shape::Block, false), (Shape::BlockB2b, true), (Shape::BlockInout, true), (Shape::BackendBlock, true), (Shape::BlockInout, false)][((i + j + k) % 5) as usize];
+                let c = super::kat::run_shape(&inst, true, sh(0), &x);
+                let back = super::kat::run_shape(&inst, false, sh(1), &c);
                 rep.case(case_hash(&id, &key, &x, 1), random);
                 if back != x {
                     rep.violation(format!("roundtrip|{}|dec(enc(x))!=x|keylen={}", id, key.len()), detail(&id, &key, &x, &x, &back, "dec(enc(x))"));
                 }
-                let mut p = x.clone();
-                inst.dec1(&mut p);
-                let mut back2 = p.clone();
-                inst.enc1(&mut back2);
+                let p = super::kat::run_shape(&inst, false, sh(2), &x);
+                let back2 = super::kat::run_shape(&inst, true, sh(3), &p);
                 rep.case(case_hash(&id, &key, &x, 2), random);
                 if back2 != x {
                     rep.violation(format!("roundtrip|{}|enc(dec(x))!=x|keylen={}", id, key.len()), detail(&id, &key, &x, &x, &back2, "enc(dec(x))"));
@@ -77,15 +75,15 @@ pub fn run(ctx: &Ctx) -> Report {
                 let cl = if rng.below(2) == 0 { 0 } else { bc };
                 data.extend(gen::gen(&mut rng, bs, cl));
             }
-            let mut buf = data.clone();
-            inst.run(true, Shape::Blocks, None, &mut buf);
-            inst.run(false, Shape::Blocks, None, &mut buf);
+            let bsh = |k: u64| [(Shape::Blocks, false), (Shape::BlocksB2b, true), (Shape::BlocksInout, true), (Shape::BackendPar, true), (Shape::BackendPar, false)][((i + k) % 5) as usize];
+            let mut buf = super::kat::run_shape(&inst, true, bsh(0), &data);
+            buf = super::kat::run_shape(&inst, false, bsh(1), &buf);
             rep.case(case_hash(&id, &key, &data, 3), n > 0);
             if buf != data {
                 rep.violation(format!("roundtrip|{}|dec_blocks(enc_blocks(x))!=x|keylen={}", id, key.len()), detail(&id, &key, &data, &data, &buf, "batch dec(enc)"));
             }
-            inst.run(false, Shape::Blocks, None, &mut buf);
-            inst.run(true, Shape::Blocks, None, &mut buf);
+            buf = super::kat::run_shape(&inst, false, bsh(2), &buf);
+            buf = super::kat::run_shape(&inst, true, bsh(3), &buf);
             rep.case(case_hash(&id, &key, &data, 4), n > 0);
             if buf != data {
                 rep.violation(format!("roundtrip|{}|enc_blocks(dec_blocks(x))!=x|keylen={}", id, key.len()), detail(&id, &key, &data, &data, &buf, "batch enc(dec)"));
